@@ -228,3 +228,101 @@ def check_exact_operand_conversion(run, ix, rule):
     if n < 8:
         raise AnalysisError('operand conversions in the operator machinery not found (%d)' % n)
     return n
+
+
+def check_amplified_error(run, ix, rule='B-R10'):
+    """Error amplification.  In  exp(w * log(z, P))  the error of the logarithm is multiplied by
+    |w * log z| before the exponential turns it into a relative error of the result; in
+    pow_int(sqrt(s, P), n)  the error of the root is multiplied by n.  When the multiplier is an
+    unbounded input (an exponent, an integer n) a CONSTANT number of guard bits (P = prec + c) loses
+    log2 of the multiplier bits: x**n for large n is off by thousands of ulps, root(x**n, n) is no
+    longer exact.  The precision P of the inner call must therefore depend on the size of the
+    multiplier (its expression mentions something besides the precision parameter and constants).
+    Shapes recognised: *_exp(<product of a *_log call and anything>) and *_pow_int(<*_sqrt call>, n),
+    the inner call given directly or through a local assigned once."""
+    n = 0
+    for rel in ('mpmath/libmp/libelefun.py', 'mpmath/libmp/libmpc.py'):
+        m = ix.module(rel)
+        for f in m.funcs.values():
+            if f.parent is not None or not isinstance(f.node, ast.FunctionDef) or 'prec' not in f.params:
+                continue
+            alldefs = {}
+            for x in _walk_own(f.node):
+                if isinstance(x, ast.Assign) and len(x.targets) == 1 and isinstance(x.targets[0], ast.Name):
+                    alldefs.setdefault(x.targets[0].id, []).append(x)
+
+            class _Defs(dict):
+                pass
+            defs = _Defs()
+
+            def nearest(name, line):
+                cands = [a for a in alldefs.get(name, []) if a.lineno <= line]
+                if not cands:
+                    return None
+                return max(cands, key=lambda a: a.lineno).value
+            for k_, v_ in alldefs.items():
+                defs[k_] = [v_[-1].value] if len(v_) == 1 else []
+
+            def resolve(e):
+                if isinstance(e, ast.Name):
+                    v = nearest(e.id, getattr(e, 'lineno', 10 ** 9))
+                    if v is not None and not (isinstance(v, ast.Name) and v.id == e.id):
+                        return v
+                return e
+
+            def precision_depends_on_input(pexpr, depth=0):
+                """False when the expression is built from the precision parameter and constants only"""
+                pexpr = resolve(pexpr)
+                for y in ast.walk(pexpr):
+                    if isinstance(y, ast.Call):
+                        return True
+                    if isinstance(y, ast.Name) and y.id not in ('prec', 'wp', 'prec2') and depth < 3:
+                        return True
+                    if isinstance(y, ast.Name) and y.id in ('wp', 'prec2') and depth < 3:
+                        v = nearest(y.id, getattr(y, 'lineno', 10 ** 9))
+                        if v is not None and v is not pexpr and precision_depends_on_input(v, depth + 1):
+                            return True
+                return False
+
+            def inner_calls(e, names):
+                e = resolve(e)
+                out = []
+                for y in ast.walk(e):
+                    if isinstance(y, ast.Call) and isinstance(y.func, ast.Name) and y.func.id in names:
+                        out.append(y)
+                    elif isinstance(y, ast.Name) and len(defs.get(y.id, [])) == 1 and y is not e:
+                        v = defs[y.id][0]
+                        if isinstance(v, ast.Call) and isinstance(v.func, ast.Name) and v.func.id in names:
+                            out.append(v)
+                return out
+            for x in _walk_own(f.node):
+                if not (isinstance(x, ast.Call) and isinstance(x.func, ast.Name)):
+                    continue
+                sites = []
+                if x.func.id in ('mpf_exp', 'mpc_exp') and x.args:
+                    prod = resolve(x.args[0])
+                    if isinstance(prod, ast.Call) and isinstance(prod.func, ast.Name) and \
+                            prod.func.id in ('mpf_mul', 'mpc_mul', 'mpc_mul_int', 'mpc_mul_mpf', 'mpf_mul_int'):
+                        for lg in inner_calls(prod, ('mpf_log', 'mpc_log')):
+                            sites.append((lg, 'the logarithm', 'multiplied by the exponent'))
+                if x.func.id in ('mpf_pow_int', 'mpc_pow_int') and len(x.args) >= 2 and \
+                        not isinstance(x.args[1], ast.Constant):
+                    for sq in inner_calls(x.args[0], ('mpf_sqrt', 'mpc_sqrt')):
+                        sites.append((sq, 'the square root', 'raised to a variable integer power'))
+                for call, what, how in sites:
+                    n += 1
+                    pexpr = call.args[1] if len(call.args) > 1 else None
+                    if pexpr is not None and precision_depends_on_input(pexpr):
+                        run.ok(rule, '%s: %s is computed at `%s`' % (f.name, what, norm(resolve(pexpr), 60)))
+                    else:
+                        st = x
+                        while not isinstance(st, ast.stmt):
+                            st = st._parent
+                        run.fail(Finding(rule, rel, f.name, norm(st),
+                                         '%s is computed with a constant number of guard bits (`%s`) and then %s: '
+                                         'its error is amplified by the size of that multiplier, so for large '
+                                         'exponents / huge or tiny arguments the result loses that many bits '
+                                         '(exact powers and roots are no longer exact)'
+                                         % (what, norm(pexpr) if pexpr is not None else 'default', how),
+                                         line=st.lineno))
+    return n
